@@ -306,6 +306,35 @@ func (ch c05) Run(c *core.Ctx) {
 	if cl != nil {
 		cl.Finish()
 	}
+	// a Query whose statement starts COPY-in and fails before it has read the stream: one ErrorResponse,
+	// one ReadyForQuery - also when the client, as drivers do, still ends the copy afterwards; the next
+	// Query gets its own answer
+	if c.Batch == 2%nb && c.Begin(90000000) {
+		cp := &hs.Prog{Stmts: []*hs.Stmt{{ID: "cp", Cols: textCols(1), Ops: []hs.Op{{K: "copy", Copy: &hs.CopyPlan{Format: wire.TextFormat, MaxReads: 0, OnStop: "own"}}}}}}
+		next := &hs.Prog{Stmts: []*hs.Stmt{{ID: "next", Cols: textCols(1), Ops: []hs.Op{{K: "row", Vals: []any{"n"}}, {K: "complete", Tag: "SELECT 1"}}}}}
+		for v, tail := range [][]byte{pg.CopyDone(), pg.CopyFail("client gives up"), append(pg.CopyData([]byte("1\n")), pg.CopyDone()...), nil} {
+			cl := hs.NewClient(env.Dial(&hs.Sess{Progs: map[string]*hs.Prog{"cp": cp, "next": next}}))
+			if err := cl.StartupOK("u"); err != nil {
+				c.Violate("startup", "plain startup failed", err.Error(), nil)
+				return
+			}
+			var got []string
+			for _, in := range [][]byte{pg.Query("cp"), tail, pg.Query("next"), pg.Query("next")} {
+				if in == nil {
+					got = append(got, "")
+					continue
+				}
+				out, _ := cl.Step(in)
+				got = append(got, pg.Types(mustMsgs(out)))
+			}
+			c.Count("failed_copy_cycles_ended_by_the_client", 1)
+			c.Eval(fmt.Sprintf("failed copy, client tail %d", v), true)
+			if want := []string{"TGEZ", "", "TDCZ", "TDCZ"}; strings.Join(got, "|") != strings.Join(want, "|") {
+				c.Violate("cycle", "a Query whose COPY-in failed is not answered by one error and one ReadyForQuery, or the next Query does not get its own answer", fmt.Sprintf("client tail variant %d: replies %q, want %q", v, got, want), map[string]any{"variant": v})
+			}
+			cl.Finish()
+		}
+	}
 }
 
 func replyKinds(out []byte) string {
